@@ -52,6 +52,7 @@ ASSUMPTIONS = [
 ]
 
 N_QUICK = 6000
+SHRINK_PREFIX = 0       # a case is (body ops), there is no opcode: the shrinker may cut into the body as well
 N_THOROUGH = 30000
 
 
@@ -668,7 +669,7 @@ LEVEL_TEXT = ("Coq proofs about an executable Gallina transcription of Owner (ch
               "registered in the subtree is disposed, a disposed key never resolves again whatever is allocated later, nothing "
               "outside the subtree changes, context lookup returns the nearest providing live ancestor, and once every owner is "
               "gone the arena is empty; tied to /repo by running the extracted model and the real Owner / Effect / Memo / RwSignal / "
-              "StoredValue API on the same generated scope programs and histories (with pending effect notifications under "
+              "StoredValue / raw ArenaItem<T, S> (types with and without drop glue, both storages) API on the same generated scope programs and histories (with pending effect notifications under "
               "scheduled polls) and comparing cleanup order, every retained handle after every operation, effect / memo run logs, "
               "slot reuse pattern and final arena length, plus an independent Python ownership bookkeeping as oracle.")
 LEVEL_NOTE = ("Trusted: Coq kernel, extraction + OCaml driver, Rust harness + executor; modelled not verified: slotmap, Arc/Weak "
